@@ -41,7 +41,16 @@ type C14Case struct {
 	// one byte per read, "chunks" 1000-byte reads with zero-length reads in
 	// between.
 	InKind string `json:"in_kind,omitempty"`
+	// HoldInput: the input stream stays open and silent (a Read that does not
+	// return) while the command, which does not read its input, runs and
+	// exits: the output stream must still end once the command has exited.
+	HoldInput bool `json:"hold_input,omitempty"`
 }
+
+// holdReader is an input stream that stays open and silent until released.
+type holdReader struct{ ch chan struct{} }
+
+func (h holdReader) Read([]byte) (int, error) { <-h.ch; return 0, io.EOF }
 
 // inReader hands out b according to kind.
 type inReader struct {
@@ -107,6 +116,7 @@ type c14Result struct {
 	goErr           error
 	timedOut        bool
 	pausedAfterExit bool
+	heldOpen        bool // HoldInput: the output stream did not end while the input stayed open
 }
 
 func runC14(c C14Case) c14Result {
@@ -128,7 +138,10 @@ func runC14(c C14Case) c14Result {
 	if err != nil {
 		panic(err)
 	}
-	if c.InKind == "" {
+	hold := holdReader{make(chan struct{})}
+	if c.HoldInput {
+		sh.SetInput(hold)
+	} else if c.InKind == "" {
 		sh.SetInput(bytes.NewReader(seq('0', c.Stdin)[:c.Stdin]))
 	} else {
 		sh.SetInput(&inReader{b: seq('0', c.Stdin)[:c.Stdin], kind: c.InKind})
@@ -168,6 +181,16 @@ func runC14(c C14Case) c14Result {
 			}
 		}
 	}()
+	if c.HoldInput {
+		// the command does not read its input and exits by itself; the output
+		// stream ends then, although the input is still open
+		select {
+		case <-readDone:
+		case <-time.After(30 * time.Second):
+			res.heldOpen = true
+		}
+		close(hold.ch)
+	}
 	// note when the child has exited (Process.Wait cannot be used, Go owns it):
 	// poll ProcessState through Go's return instead
 	var goErr error
@@ -201,6 +224,9 @@ func project(b []byte, lo, hi byte) []byte {
 
 func checkC14(c C14Case) (key, what string, res c14Result) {
 	res = runC14(c)
+	if res.heldOpen {
+		return "output-not-ended-while-input-open", "the command exited (it never reads its input) but 30 s later the output stream had not ended; it only ended once the input stream was closed", res
+	}
 	if res.timedOut {
 		return "TIMEOUT", "stream or Go did not finish within 90 s", res
 	}
@@ -296,6 +322,9 @@ func genC14() *rapid.Generator[C14Case] {
 				c.Stdin = 5000
 			}
 		}
+		if !hasI && rapid.IntRange(0, 2).Draw(t, "holdinput") == 0 {
+			c.HoldInput = true
+		}
 		c.Exit = rapid.SampledFrom([]int{0, 0, 0, 1, 2, 42, 255}).Draw(t, "exit")
 		if rapid.IntRange(0, 7).Draw(t, "signalled") == 0 {
 			c.Signal = rapid.SampledFrom([]int{9, 15, 6, 1}).Draw(t, "signal") // KILL TERM ABRT HUP
@@ -359,6 +388,9 @@ func c14Classes(c C14Case, r c14Result) []string {
 	}
 	if c.PauseUS > 0 || c.StallAt >= 0 || c.StartLate > 0 {
 		cl = append(cl, "lagging-consumer")
+	}
+	if c.HoldInput {
+		cl = append(cl, "input-held-open-past-exit")
 	}
 	if c.Stdin > 0 {
 		cl = append(cl, "stdin-echo")
